@@ -104,9 +104,9 @@ def check_omp(ctx):
         raise tlcmod.MachineryError("no OpenMP site found in %s/c: extraction broken" % REPO)
     runs = [(2, 4, models)]
     if not ctx.quick:
-        small = [m for m in models if len(m["iters"]) <= 8]
+        small = [m for m in models if len(m["iters"]) <= 9]
         runs.append((3, 4, small))     # three threads
-        runs.append((2, 8, small))     # two threads, iterations claimed in any order
+        runs.append((2, 9, small))     # two threads, iterations claimed in any order
     # action coverage on the smallest site (coverage statistics are expensive on the big ones)
     smallest = min(models, key=lambda m: sum(len(a) for a in m["acc"]))
     cfgc = OMP_CFG % (2, 4, "\n".join("INVARIANT " + i for i in OMP_INVS))
@@ -167,7 +167,7 @@ def check_omp(ctx):
 # --------------------------------------------------------------------------
 RUNS_INVS = ["ImplMatchesReference", "ImplThreadsRepsBitwise", "ImplBuildsAgree", "ImplGuardsIntact",
              "ImplConstInputsUnchanged", "ImplUseOpenmpFlagIrrelevant", "ImplNoException", "ImplNoSanitizerReport", "ImplCoversMatrix",
-             "ImplKernelKnown", "ImplGlue", "ImplAllKernelsCovered", "ImplIndexMapCoverage",
+             "ImplKernelKnown", "ImplGlue", "ImplAllKernelsCovered", "ImplIndexMapCoverage", "ImplShapeCoverage",
              "ImplFlagCellsCovered", "ImplDivergentCovered"]
 
 RUNS_CFG = """SPECIFICATION Spec
@@ -570,7 +570,7 @@ def check_kernels(ctx, prog):
         flags = c13set((nm, str(K.scalar_sig(cargs[pos]))) for pos, nm in fpos.get(g["kernel"], []) if pos < len(cargs))
         gl.append(dict(kernel=g["kernel"], case=g["case"], variant=g["variant"], indexmaps=facts["indexmaps"],
                        noncontig=facts["noncontig"], p2sprefix=facts["p2sprefix"], gllimit=facts["gllimit"],
-                       flags=flags, runs=set_of(g["runs"])))
+                       shapecls=K.shape_class(cases[g["case"]]), flags=flags, runs=set_of(g["runs"])))
     ctx.sample(dict(kernel=gl[0]["kernel"], case=gl[0]["case"], runs=len(gl[0]["runs"]))) if gl else None
 
     # ---- code -> spec: TLC judges every group ----
@@ -589,6 +589,9 @@ def check_kernels(ctx, prog):
             missing = ["%s.%s has only %s" % (k, a, sorted(have.get((k, a), []))) for (k, a) in flagargs
                        if len(have.get((k, a), [])) < 2]
             raise tlcmod.MachineryError("C13 case generator: %s of KernelRuns.tla not met: %s" % (name, missing))
+        if name == "ImplShapeCoverage":
+            have = sorted(set((g["kernel"], g["shapecls"], g["variant"], g["p2sprefix"]) for g in gl if g["shapecls"] != "na"))
+            raise tlcmod.MachineryError("C13 case generator: ImplShapeCoverage of KernelRuns.tla not met; present: %s" % have)
         if name in ("ImplAllKernelsCovered", "ImplIndexMapCoverage"):
             # the inputs do not span what the property quantifies over: the run proves nothing
             raise tlcmod.MachineryError("C13 case generator: coverage requirement %s of KernelRuns.tla not met "
